@@ -425,27 +425,33 @@ func runHPPS(nalu []byte, arg string) (r result) {
 	return r
 }
 
+// hevcMapsOf replays the history of an HSLICE case on the real API (see mapsOf).
 func hevcMapsOf(arg string) (map[uint32]*hevc.SPS, map[uint32]*hevc.PPS) {
 	spsMap := map[uint32]*hevc.SPS{}
 	ppsMap := map[uint32]*hevc.PPS{}
-	parts := strings.Split(arg, ";")
-	if len(parts) != 2 {
-		return spsMap, ppsMap
-	}
-	for _, h := range strings.Split(parts[0], ",") {
-		if h == "" {
-			continue
-		}
-		if s, err := hevc.ParseSPSNALUnit(hx.UnHex(h)); err == nil {
-			spsMap[uint32(s.SpsID)] = s
-		}
-	}
-	for _, h := range strings.Split(parts[1], ",") {
-		if h == "" {
-			continue
-		}
-		if p, err := hevc.ParsePPSNALUnit(hx.UnHex(h), spsMap); err == nil {
-			ppsMap[p.PicParameterSetID] = p
+	for _, op := range historyOps(arg) {
+		k, v, _ := strings.Cut(op, ":")
+		switch k {
+		case "S":
+			if s, err := hevc.ParseSPSNALUnit(hx.UnHex(v)); err == nil {
+				spsMap[uint32(s.SpsID)] = s
+			}
+		case "P":
+			if p, err := hevc.ParsePPSNALUnit(hx.UnHex(v), spsMap); err == nil {
+				ppsMap[p.PicParameterSetID] = p
+			}
+		case "DS":
+			var id uint32
+			fmt.Sscanf(v, "%d", &id)
+			delete(spsMap, id)
+		case "DP":
+			var id uint32
+			fmt.Sscanf(v, "%d", &id)
+			delete(ppsMap, id)
+		case "NS":
+			spsMap = map[uint32]*hevc.SPS{}
+		case "NP":
+			ppsMap = map[uint32]*hevc.PPS{}
 		}
 	}
 	return spsMap, ppsMap
